@@ -21,7 +21,7 @@ from . import cborx, core, envgen, project, seqwalk, tlc, toolrun
 
 HASHES = {"sha-256": -16, "shake128": -18, "sha-384": -43, "sha-512": -44, "shake256": -45}
 KIDS = [0, 1, 23, 24, 255, 256, 65535, 65536, 0x4000AA00, 2**31 - 1, 2**31, 2**32 - 1]
-SIZES = [0, 1, 15, 16, 17, 31, 32, 33, 4096, 65537, 64, 128, 136, 168, 8192, 65536]
+SIZES = [0, 1, 15, 16, 17, 31, 32, 33, 4096, 65537, 64, 128, 136, 168, 8192, 65536, 1048576, 1048577]   # ... and around 1 MiB
 
 
 def scripts():
@@ -264,8 +264,11 @@ def run_geninfo(ctx, tr, d, size, seed, kid, via, k):
     ctx.nontriv(("gen", size, hex(kid), via))
 
 
+# (the later runs shrink the firmware so that the decimal text of the new size is a PROPER PREFIX of the old one: 4096 -> 40 -> 4,
+# 16 -> 1 - a writer that compares only as many bytes as it is about to write takes the old size file for current)
 SAME_DIR = ((100, 1, 7, "sha-256", "cli"), (100, 1, 7, "sha-256", "cli"), (100, 1, 8, "sha-256", "lib"), (100, 1, 8, "sha-256", "lib"),
-            (100, 2, 8, "sha-512", "cli"), (0, 2, 8, "sha-512", "lib"))
+            (100, 2, 8, "sha-512", "cli"), (0, 2, 8, "sha-512", "lib"), (4096, 3, 8, "sha-256", "cli"), (40, 4, 8, "sha-256", "cli"),
+            (4, 5, 8, "sha-256", "lib"), (16, 6, 9, "sha-384", "cli"), (1, 7, 9, "sha-384", "cli"))
 
 
 def same_directory_runs(ctx, tr, d, keys, k, upto):
